@@ -77,6 +77,12 @@ structure Facts where
   connFilterResetsEof : Bool
   /-- `DeleteHistoricVersions`: after deleting the empty current version the handle stops naming it (F71) -/
   emptyVersionForgotten : Bool
+  /-- `Open` (no OnlyVersions): when a listed version had to be skipped it lists again and starts over if the listing changed, at most twice (F81) -/
+  openRelistsWhenSkipped : Bool
+  /-- `VirtualTable.Insert`: a value given for the generated `_rowid_` is refused (F95) -/
+  rowidCannotBeAssigned : Bool
+  /-- `convertSchema`: the column named by PRIMARY KEY(...) is looked up by its case-folded name, like duplicates (F96) -/
+  keyColumnFoldedLookup : Bool
   /-- `Vacuum`: a failed commit of the clone (in `RemoveTombstones` or `Commit`) sets the table's `commitFailed` (F94) -/
   vacuumRemembersFailedCommit : Bool
   /-- sqlite `VirtualTable.Sync` of a read-only table ends the table's transaction (`Rollback`) instead of just returning (F57) -/
